@@ -3,7 +3,7 @@
    repaired code) and Model/Macro.v (header directives, number_macros).
    Only statements, closed by `exact`, each followed by Print Assumptions. *)
 From Coq Require Import ZArith String List Bool Ascii.
-From JMCV Require Import Base.Dec Model.Layout Model.Macro Model.MacroSubst Proofs.LayoutBasic Proofs.LayoutAdj Proofs.LayoutAdj2 Proofs.MacroFacts Proofs.MacroSubst.
+From JMCV Require Import Base.Dec Model.Layout Model.Macro Model.MacroSubst Model.MacroEnum Model.MacroScope Proofs.LayoutBasic Proofs.LayoutAdj Proofs.LayoutAdj2 Proofs.MacroFacts Proofs.MacroSubst Proofs.MacroEnum Proofs.MacroScope Proofs.MacroNest.
 Import ListNotations.
 Open Scope Z_scope.
 
@@ -122,7 +122,7 @@ Theorem C16_param_slot_simultaneous :
     forall i s k a,
       nth_error body i = Some (KEYWORD, s) -> index_of s params 0%nat = Some k -> nth_error args k = Some a ->
       nth_error (param_expand params args body) i = Some a.
-Proof. intros. split; [apply param_expand_length|apply param_slot]. Qed.
+Proof. exact (fun params args body => conj (param_expand_length params args body) (param_slot params args body)). Qed.
 Print Assumptions C16_param_slot_simultaneous.
 
 (* Hardcode.calc (Model/MacroSubst.v: calc_subst = the str.replace loop of command/utils.py:hardcode_parse_calc over
@@ -152,6 +152,191 @@ Theorem C16_calc_unknown_word_refuted :
   exists nm e, keys_ok nm /\ calc_text nm e = Some (s2l "12") /\ hand_calc nm e = e.
 Proof. exact calc_unknown_word_refuted. Qed.
 Print Assumptions C16_calc_unknown_word_refuted.
+
+(* ---------------------------------------------------------------- strengthening round 4
+   (g) `#enum Class [start] m0 .. mn`.  Model.MacroEnum.enum_value is the SPECIFICATION, computed from the member
+   names alone: `Class.m` stands for start + (index of the LAST member named m).  For EVERY class name, start,
+   member list (repeated names, names that look like numbers or contain dots included), earlier table and key:
+   the macro table and Header.number_macros built by the directive answer exactly that - by induction over the
+   member list.                                                                                                    *)
+Theorem C16_enum_table :
+  forall cls items start first h key,
+    let h' := enum_items false cls items start first h in
+    lookup_macro (h_mt h') key =
+      match enum_value cls start (map t_str items) key with
+      | Some v => Some (enum_macro key v)
+      | None => lookup_macro (h_mt h) key
+      end /\
+    lookup_num (h_num h') key =
+      match enum_value cls start (map t_str items) key with
+      | Some v => Some (s2l (z_dec v))
+      | None => lookup_num (h_num h) key
+      end.
+Proof. exact enum_items_lookup. Qed.
+Print Assumptions C16_enum_table.
+
+(* the optional start is decided by its PRESENCE: a digit string after the class name is the start whatever its
+   value (`#enum Slot 0 HEAD CHEST` numbers HEAD from 0 and has no member `Slot.0`); anything else is the first
+   member and numbering starts at 0 *)
+Theorem C16_enum_start_by_presence :
+  forall nf ns h d cls a1 f rest,
+    t_ty d = KEYWORD -> t_str d = s2l "enum" ->
+    (all_digits (t_str a1) = true ->
+       directive false nf ns h (d :: cls :: a1 :: f :: rest) =
+       Ok (enum_items false (t_str cls) (f :: rest) (digits_val (t_str a1) 0) (t_str f) h)) /\
+    (digitish (t_str a1) = false ->
+       directive false nf ns h (d :: cls :: a1 :: f :: rest) =
+       Ok (enum_items false (t_str cls) (a1 :: f :: rest) 0 (t_str a1) h)).
+Proof. exact enum_directive_spec. Qed.
+Print Assumptions C16_enum_start_by_presence.
+
+(* both together: whatever the directive accepts, every key has the value the names give it *)
+Theorem C16_enum_directive_table :
+  forall nf ns h d cls a1 f rest h' key,
+    t_ty d = KEYWORD -> t_str d = s2l "enum" ->
+    directive false nf ns h (d :: cls :: a1 :: f :: rest) = Ok h' ->
+    let start := if all_digits (t_str a1) then digits_val (t_str a1) 0 else 0 in
+    let names := if all_digits (t_str a1) then map t_str (f :: rest) else map t_str (a1 :: f :: rest) in
+    lookup_macro (h_mt h') key =
+      match enum_value (t_str cls) start names key with
+      | Some v => Some (enum_macro key v) | None => lookup_macro (h_mt h) key end /\
+    lookup_num (h_num h') key =
+      match enum_value (t_str cls) start names key with
+      | Some v => Some (s2l (z_dec v)) | None => lookup_num (h_num h) key end.
+Proof. exact enum_directive_table. Qed.
+Print Assumptions C16_enum_directive_table.
+
+(* the PROGRAM: expanding any token list under the table of one enum = replacing every whole KEYWORD `Class.m` by the
+   number the names give it, and nothing else (strings, brackets, operators, other words: copied) *)
+Theorem C16_enum_program_expansion :
+  forall cls items start first nm envs ws,
+    expand_words (h_mt (enum_items false cls items start first (mkH [] nm envs))) ws =
+    hand_enum cls start (map t_str items) ws.
+Proof. exact enum_program_expansion. Qed.
+Print Assumptions C16_enum_program_expansion.
+
+(* expand_word is what the tokenizer's append_token does to (type, text), for every macro table *)
+Theorem C16_append_token_is_expand_word :
+  forall mt ty st st',
+    append_token mt ty st = Ok st' ->
+    exists toks, st' = push_tokens st toks /\
+                 map (fun t => (t_ty t, t_str t)) toks = expand_word mt (ty, rev (s_tstr st)).
+Proof. exact append_token_words. Qed.
+Print Assumptions C16_append_token_is_expand_word.
+
+(* deciding "a start was given" by the VALUE of the start is refuted by `#enum Slot 0 HEAD CHEST LEGS` (HEAD becomes 1),
+   and is the same rule for every other header *)
+Theorem C16_enum_start_by_value_refuted :
+  exists cls a1 rest start items,
+    all_digits (t_str a1) = true /\
+    enum_args_by_value a1 rest = Ok (start, items) /\ items = a1 :: rest /\
+    enum_args a1 rest = Ok (0, rest) /\
+    let key := enum_key cls (kw (s2l "HEAD")) in
+    lookup_num (h_num (enum_items false cls items start (t_str a1) (mkH [] [] []))) key = Some (s2l "1") /\
+    lookup_num (h_num (enum_items false cls rest 0 (s2l "HEAD") (mkH [] [] []))) key = Some (s2l "0").
+Proof. exact enum_by_value_refuted. Qed.
+Print Assumptions C16_enum_start_by_value_refuted.
+
+Theorem C16_enum_start_by_value_elsewhere :
+  forall a1 rest,
+    (all_digits (t_str a1) = false \/ digits_val (t_str a1) 0 <> 0) ->
+    enum_args_by_value a1 rest = enum_args a1 rest.
+Proof. exact enum_by_value_agrees. Qed.
+Print Assumptions C16_enum_start_by_value_elsewhere.
+
+(* (h) SCOPE of Hardcode.calc's textual substitution (Model/MacroScope.v: calc_step = one call of
+   command/utils.py:hardcode_parse_calc on the first occurrence, calc_all = the callers' loop; tied to the real
+   function on every run).  For EVERY evaluator, table of number macros and body text: a step rewrites the bracket
+   of the FIRST occurrence into the value of its substituted text, and the text before `Hardcode.calc` and after the
+   closing bracket is the same, character for character - names of number macros there (in string literals,
+   longer words, `$`-variables, anywhere) are out of reach. *)
+Theorem C16_calc_scope :
+  forall ev nm s s',
+    calc_step ev nm s = Step s' ->
+    exists pre expr rest r,
+      s = pre ++ CALC ++ expr ++ rest /\ s' = pre ++ r ++ rest /\
+      find_sub CALC s = Some (pre, CALC ++ expr ++ rest) /\
+      scan (expr ++ rest) 0 = Some (expr, rest) /\
+      calc_value ev nm expr = Some r.
+Proof. exact calc_step_frame. Qed.
+Print Assumptions C16_calc_scope.
+
+Theorem C16_calc_no_occurrence :
+  forall ev nm s s', calc_step ev nm s = Done s' -> s' = s /\ find_sub CALC s = None.
+Proof. exact calc_step_done. Qed.
+Print Assumptions C16_calc_no_occurrence.
+
+(* ... and inside the bracket it is the whole-word hand expansion (same hypotheses as
+   C16_calc_longest_first_is_hand_expansion) *)
+Theorem C16_calc_step_is_hand_expansion :
+  forall ev nm s s',
+    keys_ok nm -> calc_step ev nm s = Step s' ->
+    exists pre expr rest r,
+      s = pre ++ CALC ++ expr ++ rest /\ s' = pre ++ r ++ rest /\
+      (Forall (known_word nm) (words_of (split_words expr)) -> ev (hand_calc nm expr) = Some r).
+Proof. exact calc_step_hand. Qed.
+Print Assumptions C16_calc_step_is_hand_expansion.
+
+(* the callers' loop (find the first occurrence again in the REWRITTEN text, until there is none) is one pass from
+   left to right over the original text, for every evaluator whose values are decimal numbers (eval_expr): no value
+   and no text already passed is ever read again - for every fuel, table and body *)
+Theorem C16_calc_loop_is_one_pass :
+  forall ev nm,
+    (forall t r, ev t = Some r -> numeric r = true) ->
+    forall fuel s x, calc_all ev nm fuel s = CText x -> one_pass ev nm fuel s = CText x.
+Proof. exact calc_all_one_pass. Qed.
+Print Assumptions C16_calc_loop_is_one_pass.
+
+(* substituting the number macros into everything that follows `Hardcode.calc` (the seeded reorganisation) is
+   refuted: `#define N 5`, `$x = Hardcode.calc(N+2); say "N is N"; $countN += 1;` *)
+Theorem C16_calc_leak_refuted :
+  exists nm s s1 s2,
+    keys_ok nm /\
+    calc_step ev_mark nm s = Step s1 /\ calc_step_leaky ev_mark nm s = Step s2 /\ s1 <> s2 /\
+    s1 = s2l "$x = 7; say ""N is N""; $countN += 1;" /\
+    s2 = s2l "$x = 7; say ""5 is 5""; $count5 += 1;".
+Proof. exact calc_leak_refuted. Qed.
+Print Assumptions C16_calc_leak_refuted.
+
+(* side finding: a macro used inside another macro's body (`#define SEL @e`, `#define NEAR SEL[distance=..5]`).
+   Repaired (fixes/C16-macro-in-macro-body-adjacency.patch, Model.Macro.norm_body): for EVERY list of body tokens -
+   whatever synthetic positions and ends nested expansions gave them - the inner adjacency of the template (the
+   tt_adjacent of C16_adjacent / C16_glued_of_expansion) is the connectedness of the tokens in the header line, texts
+   and types unchanged; a body written without macros is not moved at all. *)
+Theorem C16_body_layout :
+  forall toks prev,
+    adj_flags (norm_body prev toks) = conn_seq toks /\
+    map (fun t => (tt_ty t, tt_str t)) (norm_body prev toks) = map (fun t => (t_ty t, t_str t)) toks.
+Proof. exact (fun toks prev => conj (norm_body_adjacent toks prev) (norm_body_texts toks prev)). Qed.
+Print Assumptions C16_body_layout.
+
+Theorem C16_body_layout_plain :
+  forall toks, laid_out None toks -> norm_body None toks = map tt_of toks.
+Proof. exact norm_body_plain. Qed.
+Print Assumptions C16_body_layout_plain.
+
+(* the unrepaired template keeps the header line's columns: refuted by the tokens of `SEL[distance=..5]` *)
+Theorem C16_body_layout_pinned_refuted :
+  exists toks, adj_flags (map tt_of toks) <> conn_seq toks /\ adj_flags (norm_body None toks) = conn_seq toks /\
+               conn_seq toks = [true].
+Proof. exact pinned_body_refuted. Qed.
+Print Assumptions C16_body_layout_pinned_refuted.
+
+Example C16_enum_nonvacuous :
+  (* #enum Slot 0 HEAD CHEST HEAD 7 a.b : explicit start 0, a repeated name, a number-like and a dotted name *)
+  let names := map s2l ["HEAD"; "CHEST"; "HEAD"; "7"; "a.b"]%string in
+  map (enum_value (s2l "Slot") 0 names) (map s2l ["Slot.HEAD"; "Slot.CHEST"; "Slot.7"; "Slot.a.b"; "Slot.0"; "HEAD"; "Slot.HEA"]%string)
+  = [Some 2; Some 1; Some 3; Some 4; None; None; None] /\
+  hand_enum (s2l "Lvl") 5 (map s2l ["LOW"; "HIGH"]%string)
+            [(KEYWORD, s2l "Lvl.HIGH"); (STRING, s2l "Lvl.HIGH"); (KEYWORD, s2l "Lvl.HIGHER"); (KEYWORD, s2l "$Lvl.HIGH")]
+  = [(KEYWORD, s2l "6"); (STRING, s2l "Lvl.HIGH"); (KEYWORD, s2l "Lvl.HIGHER"); (KEYWORD, s2l "$Lvl.HIGH")].
+Proof. split; vm_compute; reflexivity. Qed.
+
+Example C16_calc_scope_nonvacuous :
+  calc_all (fun t => Some (s2l "<" ++ t ++ s2l ">")) [(s2l "N", s2l "5"); (s2l "Team.BLUE", s2l "1")] 9
+           (s2l "say ""N""; $a = Hardcode.calc((N+1)*Team.BLUE); $countN = Hardcode.calc(N); say ""Team.BLUE N"";")
+  = CText (s2l "say ""N""; $a = <((5+1)*1)>; $countN = <(5)>; say ""Team.BLUE N"";").
+Proof. vm_compute. reflexivity. Qed.
 
 Example C16_param_nonvacuous :
   param_expand [s2l "name"] [(KEYWORD, s2l "kills")]
